@@ -696,6 +696,25 @@ def executed_layout(ctx, quick):
             ctx.count("executed-time-arrays." + ep.name)
             rt.judge(ctx, mt, tproto, tvals, tdata, r, ep.name, "bin", "arrays of dates / times / datetimes and of records holding them through %s (set %d)" % (ep.name, k), {"executed": True})
     mt.close()
+    # arrays whose *elements* have a fixed size of their own (a fixed vector, an alias of one, a small fixed array): with a declared rank, a fixed shape and
+    # without a declared rank - the rank and the dimensions on the wire are those of the array, the element's own extents are not part of them
+    v3 = V(f32t, 3)
+    epkg = Pkg("LayoutElem", [Al("LeVec3", v3), Proto("LeP", [("dynVec", A(v3, None)), ("dynAlias", A(N("LeVec3"), None)), ("rank2Alias", A(N("LeVec3"), 2)), ("fixedAlias", A(N("LeVec3"), ((None, 2),))),
+                                                               ("dynBytes", A(V(P("uint8"), 4), None)), ("rank1Vec", A(v3, 1)), ("items", S(A(N("LeVec3"), None)))])])
+    me = rt.prepare_model(ctx, "c14x_layoutelem", epkg, ["plain"])
+    if me is None:
+        raise Inconclusive("element layout model did not build")
+    eproto = epkg.find("LeP")
+    for k in range(3 if quick else 8):
+        evals = values.ValueGen(me.codec, rng("C14e", k), quiet_nan_only=True).steps(eproto, stream_len=3)
+        edata = me.codec.encode_stream(eproto, me.schema("LeP"), evals)
+        ctx.case(("executed-layout-fixed-size-elements", k))
+        for ep in (rt.CppEndpoint(me, "plain"), rt.PyEndpoint(me), rt.PyEndpoint(me, mode="list"), rt.PyEndpoint(me, mode="fortran")):
+            r = ep.copy("LeP", "bin", "bin", edata)
+            ctx.ev()
+            ctx.count("executed-fixed-size-elements." + ep.name)
+            rt.judge(ctx, me, eproto, evals, edata, r, ep.name, "bin", "arrays of fixed-size elements (dynamic rank, declared rank, fixed shape) through %s (set %d)" % (ep.name, k), {"executed": True})
+    me.close()
     m = rt.prepare_model(ctx, "c14x_layout", pkg, ["plain"])
     if m is None:
         raise Inconclusive("layout model did not build")
